@@ -276,12 +276,13 @@ func c07TextCheck(src string, e ast.Expr) string {
 	return ""
 }
 
-// c07Norm: a position keyword right after "[" is compared in its canonical (upper-case) spelling — the one place
-// where SQL() legitimately changes a token value (offset → OFFSET).
+// c07Norm: a position keyword right after "[" and in front of "(" is compared in its canonical (upper-case) spelling —
+// the one place where SQL() legitimately changes a token value (offset → OFFSET).  Without the "(" the word is a column
+// name (a[offset]) and is compared as written.
 func c07Norm(keys string) string {
 	ks := strings.Split(keys, " ")
-	for i := 1; i < len(ks); i++ {
-		if ks[i-1] == "[:-" && strings.HasPrefix(ks[i], "<ident>:") {
+	for i := 1; i+1 < len(ks); i++ {
+		if ks[i-1] == "[:-" && ks[i+1] == "(:-" && strings.HasPrefix(ks[i], "<ident>:") {
 			if b, ok := unhex(strings.TrimPrefix(ks[i], "<ident>:")); ok {
 				switch u := strings.ToUpper(string(b)); u {
 				case "OFFSET", "ORDINAL", "SAFE_OFFSET", "SAFE_ORDINAL":
@@ -383,7 +384,7 @@ func c07NonAssoc(res *propResult) {
 }
 
 func propC07(o *propOpts) *propResult {
-	res := newResult("inputs: replay/hints; every abstract tree over the full operator set (21 binary spellings, 4 prefix, 14 postfix/ternary forms) with up to 2 (quick) / 3 (thorough) operator occurrences and three atom rotations, every tree over one representative per precedence level and form with 3 / 4 occurrences, each printed minimally parenthesised by the GoogleSQL table and fully parenthesised; all ordered pairs of comparison-family operators without parentheses; non-trivial = at least 2 operator occurrences; distinct by printed text")
+	res := newResult("inputs: replay/hints; every abstract tree over the full operator set (21 binary spellings, 4 prefix, 14 postfix/ternary forms) with up to 2 (quick) / 3 (thorough) operator occurrences and three atom rotations, every tree over one representative per precedence level and form with 3 / 4 occurrences, plain subscripts a[t] whose expression t has a column spelled offset / ORDINAL / safe_offset / Safe_Ordinal as its leftmost leaf (t with up to 1 / 2 occurrences over the full set and each word, 2 / 3 occurrences over the representative set), each printed minimally parenthesised by the GoogleSQL table and fully parenthesised; all ordered pairs of comparison-family operators without parentheses; non-trivial = at least 2 operator occurrences; distinct by printed text")
 	if o.single != nil {
 		b, _ := unhex(o.single.Input)
 		src := string(b)
